@@ -1,6 +1,7 @@
 package fs
 
 import (
+	"encoding/binary"
 	"fmt"
 	"hash"
 	"io"
@@ -14,6 +15,14 @@ import (
 
 // boolTrueHashValue is used when we need to write something indicating a bool in the input.
 var boolTrueHashValue = []byte{2}
+
+// These are written for each entry of a directory that we hash, to keep the names, kinds and
+// contents of the entries apart from one another.
+var (
+	hashSeparator = []byte{0}
+	dirHashValue  = []byte{3}
+	fileHashValue = []byte{4}
+)
 
 // The format we serialise times in when checking whether something has changed (when we do it by timestamp)
 const timeFormat = "2006-01-02 15:04:05.000000000"
@@ -201,6 +210,16 @@ func (hasher *PathHasher) hash(path string, store, read, timestamp bool) ([]byte
 		return h.Sum(nil), nil
 	} else if err == nil && info.IsDir() {
 		err = WalkMode(path, func(p string, mode Mode) error {
+			// Write the name of every entry (relative to the directory we're hashing, so the hash
+			// doesn't depend on where that directory lives) followed by what kind of thing it is.
+			// Without this, renaming or moving things within the directory, or adding empty files
+			// and directories to it, wouldn't change the hash.
+			rel, err := filepath.Rel(path, p)
+			if err != nil {
+				rel = p
+			}
+			h.Write([]byte(rel))
+			h.Write(hashSeparator)
 			if mode.IsSymlink() {
 				// Is a symlink, must verify that it's not absolute.
 				deref, err := os.Readlink(p)
@@ -216,8 +235,14 @@ func (hasher *PathHasher) hash(path string, store, read, timestamp bool) ([]byte
 				// Just write something to the hash indicating that we found something here,
 				// otherwise rules might be marked as unchanged if they added additional symlinks.
 				h.Write(boolTrueHashValue)
-			} else if !mode.IsDir() {
-				return hasher.fileHash(h, p)
+				// Its destination is part of what it is, though.
+				h.Write([]byte(deref))
+				h.Write(hashSeparator)
+			} else if mode.IsDir() {
+				h.Write(dirHashValue)
+			} else {
+				h.Write(fileHashValue)
+				return hasher.sizedFileHash(h, p)
 			}
 			return nil
 		})
@@ -264,6 +289,25 @@ func (hasher *PathHasher) fileHash(h hash.Hash, filename string) error {
 	}
 	_, err = io.Copy(h, file)
 	file.Close()
+	return err
+}
+
+// sizedFileHash is like fileHash but writes the size of the file before its content, so that
+// the contents of consecutive files within a directory can't run into one another.
+func (hasher *PathHasher) sizedFileHash(h hash.Hash, filename string) error {
+	file, err := os.Open(filename)
+	if err != nil {
+		return err
+	}
+	defer file.Close()
+	info, err := file.Stat()
+	if err != nil {
+		return err
+	}
+	var size [8]byte
+	binary.BigEndian.PutUint64(size[:], uint64(info.Size()))
+	h.Write(size[:])
+	_, err = io.Copy(h, file)
 	return err
 }
 
